@@ -4,7 +4,7 @@ EXPLANATION = ('Digit generation (uint_formatter, mini_format_int_s/u behind fro
                '32/64-bit width for the radices that need no division (2, 4, 8, 16, 32): digits valid for radix and case, no leading zeros, Horner evaluation equals the value, "-" exactly for negatives incl. the most negative value. '
                'The translator turns signed-overflow (nsw) and llvm.abs(INT_MIN) poison into assertions (ub=True), so the unsigned-negation idiom is checked for UB. from_int, ST::format and string_stream are compared character by character. '
                'The parsing direction runs to_* against a CONTRACT STUB of the strto* family (arbitrary value, arbitrary end position): value narrowing, ok, full_match, base forwarding; the 16-bit round trip uses a glibc-faithful strtol model instead.')
-BOUNDS = {'quick': '8/16-bit: all values, radices {2,3,7,8,10,16,36}; 32/64-bit: all values, radices {2,16}; radix 10 at 32/64 bits: windows of 2^16 values at 0, the top of the type, 2^(bits-1) and around every power of ten; cross-printer agreement: all 16-bit values (hex/oct/bin), decimal |v| <= 999; parsing: text <= 6 bytes; round trip: all shorts, bases {2,10,16,36}',
+BOUNDS = {'quick': '8/16-bit: all values, radices {2,3,7,8,10,16,36}; 32/64-bit: all values, radices {2,16}; radix 10 at 32/64 bits: windows of 2^16 values at 0, the top of the type, 2^(bits-1) and around every power of ten; cross-printer agreement: all 16-bit values (hex/oct/bin), decimal |v| <= 999; parsing: text <= 6 bytes; round trip: all shorts, bases {2,10,16,36}; int / long long round trip through the strtol model in bases 10 and 16 on the same windows',
           'thorough': 'every radix 2..36 and case for 8/16-bit; radices {2,4,8,16,32} for 32/64-bit; radix 10 windows of 2^20 values, radices 3/7/36 windows of 2^16 values around every power of the radix; decimal cross-printer agreement for all 16-bit values; round trip for every base'}
 OUTSIDE = 'decimal and other non-power-of-two radices on 32/64-bit values OUTSIDE the windows (whole domain: no verdict on any back end, SAT or SMT, in 900 s); the bodies of the C library strto* functions (contract stub); base 0 prefix detection'
 import math
@@ -106,4 +106,14 @@ def queries():
         d = dg(16, base)
         qs.append(Q('roundtrip_short_b%d' % base, 'C12_int.c', 'numeric.cpp', config='small', defs={'OP': 5, 'FT': 'short', 'BITS': 16, 'SIGNED': 1, 'RADIX': base, 'UPPER': 0, 'DIGITS': d}, models=M, ub=True,
                     unwind=d + 5, heap_cap=d + 4, tiers=('quick', 'thorough') if quick else ('thorough',), bound={'base': base, 'values': 'all 2^16'}, timeout=900))
+    # (5b) round trip at 32/64 bits through the strtol model on the windows of (2b): to_int / to_long_long of from_int's text returns the value, ok and full_match set
+    for ft, bits, to, ty in (('int', 32, 'to_int', 'int32_t'), ('llong', 64, 'to_long_long', 'int64_t')):
+        for base in (10, 16):
+            for wn, lo, hi in swin(bits, 1):
+                if wn in ('negp', 'posp') and base != 10: continue
+                d = dg(bits, base)
+                defs = {'OP': 5, 'FT': ft, 'BITS': bits, 'SIGNED': 1, 'RADIX': base, 'UPPER': 0, 'DIGITS': d, 'RT_TO': to, 'RT_T': ty, 'VMIN': cint(lo, 1), 'VMAX': cint(hi, 1)}
+                quick = True      # measured 4-32 s each
+                qs.append(Q('roundtrip_%s_b%d_win_%s' % (ft, base, wn), 'C12_int.c', 'numeric.cpp', config='small', defs=defs, models=M, ub=True, unwind=d + 5, heap_cap=d + 4, tiers=('quick', 'thorough') if quick else ('thorough',),
+                            bound={'type': ft, 'base': base, 'values': '[%d, %d]' % (lo, hi)}, timeout=900))
     return qs
